@@ -65,6 +65,7 @@ func oracle(sc *Scenario, tr *trace) (*Violation, bool, bool, []int) {
 	flushed := make([][]int64, np) // ... of which known to be flushed
 	registered := make([]bool, np)
 	dropped := make([]bool, np) // truncated away completely and not written since
+	tidxDamaged := false        // a tree file of the time index was damaged under an intact snapshot at some session end
 	positionLost := false       // fwd scenarios: the pipe's progress file was torn
 	var dstAtTear []int64
 	pipes := map[string]bool{}
@@ -72,6 +73,17 @@ func oracle(sc *Scenario, tr *trace) (*Violation, bool, bool, []int) {
 	if len(tr.obs) == 0 || !tr.obs[0].Started {
 		add("fresh-directory-refused", "the server did not start on an empty directory")
 		return &vs[0], false, false, nil
+	}
+	if sc.Ensure {
+		pipes[sc.fwdName()] = true // configured: every start ensures it
+	}
+	for _, e := range tr.errs {
+		switch e {
+		case "index-save-failed-write-acknowledged":
+			add(e, "a write that creates a partition was acknowledged (or the partition is registered) although the save of the tag index failed")
+		default:
+			add(e, "the pipe of the server's configuration (EnsureAtStart) is not there after the first start")
+		}
 	}
 	// the removal of a partition: the directory has to go before the index record (a crash in between must not leave data
 	// without a record: the server would refuse to start)
@@ -111,7 +123,7 @@ func oracle(sc *Scenario, tr *trace) (*Violation, bool, bool, []int) {
 				registered[st.Part], acked[st.Part], flushed[st.Part] = false, nil, nil
 				dropped[st.Part], tainted[st.Part] = true, false
 			case "fwdpipe":
-				pipes[fwdPipe] = true
+				pipes[sc.fwdName()] = true
 			case "round":
 				// everything is flushed, the pipe has forwarded the source's flushed events (once, in order), its destination
 				// is flushed; the write of the round is acknowledged
@@ -201,6 +213,9 @@ func oracle(sc *Scenario, tr *trace) (*Violation, bool, bool, []int) {
 			positionLost = true
 			dstAtTear = append([]int64{}, acked[np-1]...)
 		}
+		if has(ss.Surgery, "tidx-short") || has(ss.Surgery, "tidx-zero") || has(ss.Surgery, "tidx-drop") {
+			tidxDamaged = true
+		}
 		S := ss.Surgery
 		o := tr.obs[si+1]
 		if o.Blind {
@@ -209,6 +224,9 @@ func oracle(sc *Scenario, tr *trace) (*Violation, bool, bool, []int) {
 			continue
 		}
 		where := fmt.Sprintf("start %d (session ended by %s, surgery %v)", si+1, ss.End, S)
+		if !o.Started && (has(S, "tindex-damaged") || has(S, "pipes-damaged") || has(S, "record-removed")) {
+			break // a file damaged from outside (no saver leaves it so): the refusal is the loader's duty, the model decides (K)
+		}
 		if !o.Started {
 			reason := "unexplained-after-" + ss.End
 			switch {
@@ -218,6 +236,8 @@ func oracle(sc *Scenario, tr *trace) (*Violation, bool, bool, []int) {
 				reason = "tindex-renamed" // the saver had moved tindex.dat away when it died
 			case strings.Contains(o.Err, "tindex") && strings.Contains(o.Err, "JSON") && has(S, "tindex-torn"):
 				reason = "tindex-torn"
+			case strings.Contains(o.Err, "pipe.Service") && pipes["s"]:
+				reason = "pipe-name-collides-with-registry-file" // the pipe named "s": its pipe<name>.dat is pipes.dat
 			case strings.Contains(o.Err, "pipe.Service") && has(S, "progress-torn"):
 				reason = "pipe-progress-torn"
 			case strings.Contains(o.Err, "pipe.Service") && ss.End == "crash-stop":
@@ -295,6 +315,8 @@ func oracle(sc *Scenario, tr *trace) (*Violation, bool, bool, []int) {
 					reason = "after-kill"
 				} else if staleCause[p] != "" {
 					reason = staleCause[p]
+				} else if tidxDamaged {
+					reason = "tidx-damaged" // the index trees were damaged under an intact snapshot earlier in this scenario
 				}
 				add("range-hides-events:"+reason, "%s: partition %d holds %v, RANGE [%d:%d] answered %v before and answers %v now", where, p, pv.Events, sc.Range[0], sc.Range[1], before, o.Ranges[p])
 			} else if !isSubseq(o.Ranges[p], inr) {
